@@ -533,7 +533,16 @@ class Context:
             rec['model'] = self._input_values(m)
         self.claims.append(rec)
 
-    def _nice(self):
+    def witness_model(self):
+        """A model of the path condition for cross-validation, preferring generic
+        values (non-zero, moderate magnitude) so that the float run is well conditioned."""
+        for extra in (self._nice(nonzero=True), self._nice()):
+            v, m = self.full_model(And.make(extra), self.t_branch * 2)
+            if v == 'sat':
+                return v, m
+        return self.full_model(TRUE, self.t_claim)
+
+    def _nice(self, nonzero=False):
         """Preference for replayable models: every real input is 0 or has a
         magnitude in [2^-10, 2^10] (used only when a model is extracted)."""
         fs = []
@@ -544,7 +553,7 @@ class Context:
             if vsort(v) != 'R':
                 continue
             x = Poly.var(v)
-            fs.append(Or.make([Cmp.make(x, '=='),
+            fs.append(Or.make(([] if nonzero else [Cmp.make(x, '==')]) + [
                                And.make([Cmp.make(lo - x, '<='), Cmp.make(x - hi, '<=')]),
                                And.make([Cmp.make(x + lo, '<='), Cmp.make(Poly.const(0) - x - hi, '<=')])]))
         return fs
